@@ -181,10 +181,13 @@ func (h *harness) dial(srv *env, name string, withFaults bool) *clientConn {
 		Count: func(k string) { h.s.Count(k, 1) }}
 	cli, sv := simnet.Pipe(f)
 	h.s.GoNamed("server-conn-"+name, func() { dbms.VerifNewServerConn(srv.dl, sv) })
+	t0 := h.s.Elapsed()
 	conn, err := dbms.VerifConnectClient(cli)
 	if err != nil {
-		if strings.Contains(err.Error(), "timeout") {
-			// the hello exchange has a 500 ms deadline; a stalled peer is refused by design
+		if strings.Contains(err.Error(), "timeout") || h.s.Elapsed()-t0 >= 500*time.Millisecond {
+			// the hello exchange has a 500 ms deadline on both sides; a stalled peer is
+			// refused by design (when it is the server that gives up, the client sees the
+			// connection closed during the TLS handshake)
 			h.s.Abandon("hello-timeout")
 			return nil
 		}
